@@ -295,22 +295,25 @@ class PythonTranslator(ASTTranslator):
         node.priority = 1
         return node.id
     def postJoinedStr(self, node):
+        return "f%r" % self.joined_str_body(node)
+    def joined_str_body(self, node):
         result = []
         for item in node.values:
             if isinstance(item, ast.Constant):
                 assert isinstance(item.value, str)
-                result.append(item.value)
+                result.append(item.value.replace('{', '{{').replace('}', '}}'))
             elif not PY38 and isinstance(item, ast.Str):  # Python 3.7
-                result.append(item.s)
+                result.append(item.s.replace('{', '{{').replace('}', '}}'))
             elif isinstance(item, ast.FormattedValue):
-                if item.conversion == -1:
-                    src = '{%s}' % item.value.src
-                else:
-                    src = '{%s!%s}' % (item.value.src, chr(item.conversion))
-                result.append(src)
+                src = '{' + item.value.src
+                if item.conversion != -1:
+                    src += '!' + chr(item.conversion)
+                if item.format_spec is not None:
+                    src += ':' + self.joined_str_body(item.format_spec)
+                result.append(src + '}')
             else:
                 assert False
-        return "f%r" % ''.join(result)
+        return ''.join(result)
     def postFormattedValue(self, node):
         return node.value.src
 
